@@ -313,7 +313,8 @@ Next ==
                /\ c' = MainCase(c.a, c.b, wi, pi, vi)
        [] Mode = "huge" ->
             \E hi \in 1..3, st \in BOOLEAN, fi \in 1..6, ot \in 1..2, vi \in 1..5 :
-               c' = HugeCase(c.a, c.b, hi, st, fi, ot, vi)
+               /\ Sel(HugeCase(c.a, c.b, hi, st, fi, ot, vi).idx)
+               /\ c' = HugeCase(c.a, c.b, hi, st, fi, ot, vi)
        [] Mode = "extreme" ->
             \E fi \in 1..4, wi \in 1..2, pi \in 1..5 :
                /\ (pi = 5 => XConvs[c.a] \in {101, 102})
@@ -361,7 +362,7 @@ Laws ==
     [] c.u = "args" -> LawArgs(c.fmt, c.vals)
     [] c.u = "main" -> LawsOne(TRUE)
     [] c.u = "huge" -> LawsOne(c.idx % 4 = 0)
-    [] c.u = "extreme" -> LawsOne(FALSE)
+    [] c.u = "extreme" -> Decided(RA) => RopeLen(RA.r) >= EffWidth(Cd, c.wv)
 
 \* laws that do not depend on the case: checked once, when TLC starts
 ASSUME \A i \in 1..NV : LawDigits(Vals[i])
